@@ -217,3 +217,16 @@ def build_machine_set(wsname, structs, profile, enum_adapters_by_shard=None, enu
     ws = workspace(wsname, srcs, spec)
     ok, dt, diag = cargo_build(ws, profile)
     return ws, ok, dt, diag
+
+
+def build_enum_set(wsname, eds, profile, per_shard=None):
+    """enum machines: shard the enum list, generate, build"""
+    total = sum(len(e.discs) + len(e.dead) + 4 for e in eds)
+    nsh = max(1, min(len(eds), max(16, total // 6000)))
+    size = -(-len(eds) // nsh)
+    shards = [eds[i:i + size] for i in range(0, len(eds), size)]
+    srcs = [rustgen.enum_shard_source(sh) for sh in shards]
+    spec = {"machines": [], "enums": [rustgen.enum_spec(e) for e in eds]}
+    ws = workspace(wsname, srcs, spec)
+    ok, dt, diag = cargo_build(ws, profile)
+    return ws, ok, dt, diag
